@@ -1,11 +1,11 @@
 SPECIFICATION SSpec
 CONSTANTS
-  NA = 3
-  Rounds = 1
+  NA = 2
+  Rounds = 2
   PerRound = 1
   NotifyMode = "token"
   TempApps = {}
-  TwoPhaseApps = {}
+  TwoPhaseApps = {1, 2}
   ExitMode = "recheck"
-INVARIANTS FIFO DrainSound NoHang LockOK
+INVARIANTS FIFO DrainSound NoHang LockOK OneAtATime
 CHECK_DEADLOCK FALSE
